@@ -34,8 +34,8 @@ def gen_case(rng):
 def correspondence(ctx, batch):
     rng = ctx.rng("corr")
     registry = stages.make_registry()
-    for _ in range(ctx.n(120, 1500)):
-        c = gen_case(rng)
+    for k in range(ctx.n(120, 1500)):
+        c = many_roots_case(rng) if k % 12 == 0 else gen_case(rng)
         stages.stage_render(batch, [tuple(x) for x in c["inputs"]], registry, worker.cmps_from(c["cmps"]), [c["job"]])
 
 
@@ -51,8 +51,26 @@ def compare(cases, seeds, repo):
                 break
 
 
+def many_roots_case(rng):
+    """several root models (one per input) that all use one shared nested model, nested layout: where the shared class goes
+    depends on the roots found for it — sets of objects hashed by id() are ordered by memory layout, which differs
+    between processes even under one PYTHONHASHSEED"""
+    from .. import gen
+    n = rng.randint(4, 7)
+    owner = {k: 1 for k in rng.sample(gen.WORDS, k=4)}
+    inputs = [["M%d" % i, [{"owner": dict(owner), "f%d" % i: i, "g%d" % i: "x"}]] for i in range(n)]
+    job = common.gen_job(rng, layout="nested")
+    job["preamble"] = None
+    return {"inputs": inputs, "cmps": [["percent", 7, 10], ["number", 10]], "job": job}
+
+
 def falsify(ctx):
     rng = ctx.rng("fals")
+    # the same hash seed in many fresh processes (memory layout varies), then different seeds
+    id_cases = [many_roots_case(rng) for _ in range(ctx.n(6, 40))] + [gen_case(rng) for _ in range(ctx.n(10, 60))]
+    for c in id_cases:
+        ctx.case(("many-processes", repr(c)), nontrivial=True)
+    yield from compare(id_cases, [0] * ctx.n(10, 24) + [1, 2], ctx.repo)
     seeds = list(range(ctx.n(4, 16)))
     cases = []
     for m in ctx.focus:
